@@ -5,6 +5,9 @@ package main
 import (
 	"fmt"
 	"os"
+	"os/exec"
+	"path/filepath"
+	"strings"
 	"runtime/debug"
 	"sort"
 	"strconv"
@@ -33,7 +36,7 @@ func main() {
 		tier = "quick"
 	}
 	seed, _ := strconv.Atoi(os.Getenv("VERIF_SEED"))
-	var prop string
+	var prop, controlPatch string
 	for i := 0; i < len(args); i++ {
 		switch args[i] {
 		case "--tier":
@@ -62,6 +65,11 @@ func main() {
 			}
 			rules.Dump(p, args[i+1], args[i+2], args[i+3], args[i+4])
 			os.Exit(0)
+		case "--control":
+			if i+1 < len(args) {
+				controlPatch = args[i+1]
+				i++
+			}
 		case "--list":
 			var ids []string
 			for id := range rules.Registry {
@@ -85,6 +93,9 @@ func main() {
 		fmt.Println("unknown property", prop)
 		os.Exit(2)
 	}
+	if controlPatch != "" {
+		os.Exit(runControl(repo, home, prop, controlPatch, fn))
+	}
 	run := report.NewRun(prop, tier, seed)
 	p, err := load.Load(repo, nil, nil)
 	if err != nil {
@@ -104,10 +115,143 @@ func main() {
 		}()
 		fn(ctx)
 	}()
-	extra := map[string]any{
+	extra := map[string]any{}
+	if tier == "thorough" {
+		extra["positive_controls"] = runControls(home, prop)
+	}
+	extra2 := map[string]any{
 		"packages_loaded": len(p.Pkgs),
 		"load_s":          p.LoadTime.Seconds(),
 		"tolerated_load_errors": p.Tolerated,
 	}
+	for k, v := range extra2 {
+		extra[k] = v
+	}
 	os.Exit(run.Finish(home, extra))
+}
+
+// runControl applies a seeded patch as a go/packages overlay (nothing is written into /repo, nothing is executed),
+// runs the property's rules and reports whether they fire. Exit: 0 fired, 3 not fired, 4 stale (patch does not apply).
+func runControl(repo, home, prop, patch string, fn func(*rules.Ctx)) int {
+	overlay, err := overlayFromPatch(repo, patch)
+	if err != nil {
+		fmt.Printf("CONTROL stale patch=%s reason=%v\n", patch, err)
+		return 4
+	}
+	p, err := load.Load(repo, nil, overlay)
+	if err != nil {
+		fmt.Printf("CONTROL stale patch=%s reason=load: %v\n", patch, err)
+		return 4
+	}
+	run := report.NewRun(prop, "quick", 0)
+	ctx := &rules.Ctx{P: p, R: run, Tier: "quick", Home: home}
+	func() {
+		defer func() {
+			if e := recover(); e != nil {
+				run.Unknown("PANIC", "checker", "", fmt.Sprint(e))
+			}
+		}()
+		fn(ctx)
+	}()
+	var keys []string
+	for _, o := range run.Obls {
+		if o.Status != report.Discharged {
+			keys = append(keys, o.Key)
+		}
+	}
+	sort.Strings(keys)
+	if len(keys) == 0 {
+		fmt.Printf("CONTROL missed patch=%s\n", patch)
+		return 3
+	}
+	fmt.Printf("CONTROL fired patch=%s n=%d keys=%s\n", patch, len(keys), strings.Join(keys, " ;; "))
+	return 0
+}
+
+func overlayFromPatch(repo, patch string) (map[string][]byte, error) {
+	data, err := os.ReadFile(patch)
+	if err != nil {
+		return nil, err
+	}
+	var files []string
+	for _, l := range strings.Split(string(data), "\n") {
+		if strings.HasPrefix(l, "+++ b/") {
+			files = append(files, strings.TrimSpace(strings.TrimPrefix(l, "+++ b/")))
+		}
+	}
+	if len(files) == 0 {
+		return nil, fmt.Errorf("no files in patch")
+	}
+	tmp, err := os.MkdirTemp("", "kverif-control-")
+	if err != nil {
+		return nil, err
+	}
+	defer os.RemoveAll(tmp)
+	for _, f := range files {
+		src, err := os.ReadFile(filepath.Join(repo, f))
+		if err != nil {
+			return nil, err
+		}
+		dst := filepath.Join(tmp, f)
+		if err := os.MkdirAll(filepath.Dir(dst), 0o755); err != nil {
+			return nil, err
+		}
+		if err := os.WriteFile(dst, src, 0o644); err != nil {
+			return nil, err
+		}
+	}
+	abs, _ := filepath.Abs(patch)
+	cmd := exec.Command("git", "apply", abs)
+	cmd.Dir = tmp
+	if out, err := cmd.CombinedOutput(); err != nil {
+		return nil, fmt.Errorf("patch does not apply to the current tree: %s", strings.TrimSpace(string(out)))
+	}
+	ov := map[string][]byte{}
+	for _, f := range files {
+		b, err := os.ReadFile(filepath.Join(tmp, f))
+		if err != nil {
+			return nil, err
+		}
+		ov[filepath.Join(repo, f)] = b
+	}
+	return ov, nil
+}
+
+// runControls runs every seeded change of the property as a positive control, each in its own process.
+func runControls(home, prop string) map[string]any {
+	dirs, _ := filepath.Glob(filepath.Join(home, "seeded", prop+"-*"))
+	sort.Strings(dirs)
+	var fired, missed, stale []string
+	for _, d := range dirs {
+		patch := filepath.Join(d, "patch.diff")
+		if _, err := os.Stat(patch); err != nil {
+			continue
+		}
+		cmd := exec.Command(os.Args[0], prop, "--control", patch)
+		cmd.Env = os.Environ()
+		out, _ := cmd.CombinedOutput()
+		line := strings.TrimSpace(string(out))
+		if i := strings.LastIndex(line, "CONTROL "); i >= 0 {
+			line = line[i:]
+		}
+		name := filepath.Base(d)
+		switch {
+		case strings.HasPrefix(line, "CONTROL fired"):
+			fired = append(fired, name+": "+truncate(line, 300))
+		case strings.HasPrefix(line, "CONTROL missed"):
+			missed = append(missed, name)
+			fmt.Printf("CONTROL-MISSED property=%s seed=%s (the seeded change applies to the current tree but no rule fires)\n", prop, name)
+		default:
+			stale = append(stale, name+": "+truncate(line, 200))
+		}
+	}
+	fmt.Printf("positive controls for %s: %d fired, %d missed, %d stale\n", prop, len(fired), len(missed), len(stale))
+	return map[string]any{"fired": fired, "missed": missed, "stale": stale, "how": "each seeded change under /verif/seeded is applied as a go/packages overlay (no write into /repo, no execution) in a separate process and the property's rules are re-run; a control that no longer applies to the current tree is stale, not a failure"}
+}
+
+func truncate(s string, n int) string {
+	if len(s) > n {
+		return s[:n] + "…"
+	}
+	return s
 }
